@@ -84,9 +84,25 @@ class Flow(object):
                 self.scope.locals.add(name.name)
             insert_loc(self._names, name)
 
+    def _resolve_far_ancestors(self):
+        # type: () -> None
+        """A long sequence of statements is a long chain of regions: resolve it in
+        pieces, oldest first, instead of in one recursion as deep as the chain"""
+        chain = []
+        flow = self
+        while True:
+            parents = [p for p in flow.parents if isinstance(p, Flow)]
+            if not parents or 'names' in parents[0].__dict__:
+                break
+            flow = parents[0]
+            chain.append(flow)
+        for flow in reversed(chain[15::15]):
+            flow.names
+
     @cached_property
     def names(self):
         # type: () -> t.Mapping[str, Name | MultiName]
+        self._resolve_far_ancestors()
         if LoopFlow._depth:
             LoopFlow._partial.append((self, 'names'))
         return MergedDict({n.name: n for n in self._names}, self.parent_names)
